@@ -8,6 +8,7 @@ import (
 
 	"github.com/glebziz/fs_db"
 	"github.com/glebziz/fs_db/internal/model"
+	"github.com/glebziz/fs_db/internal/verifhook"
 )
 
 func (u *UseCase) Set(ctx context.Context, key string, content io.Reader) error { //nolint:funlen,cyclop // TODO fix
@@ -69,6 +70,7 @@ func (u *UseCase) Set(ctx context.Context, key string, content io.Reader) error 
 		closer.Close()
 	}
 
+	verifhook.At("set.afterContent")
 	err = u.cfRepo.Store(ctx, cFile)
 	if err != nil {
 		return fmt.Errorf("content file repository store: %w", err)
